@@ -343,9 +343,6 @@ func runC09(res *lib.Result, tier string, seed int64, args []string) error {
 					}
 				}
 				switch {
-				case k == "modmember" || (w.tieMod && strings.HasPrefix(k, "diag:")):
-					res.HitKnown("C09-K2", "two module files with the same best score (C18-K2): which one require() loads varies from run to run", detail+"\n"+caseText)
-					res.Dist("hit.C09-K2")
 				case undominated:
 					res.HitKnown("C09-K1", "a global defined in two files such that neither definition dominates the other (same line number in both files, or a nested definition on an earlier line vs a top-level one on a later line): the definition the workspace links to depends on Go map iteration order; go-to-definition, hover, references and parameter-count warnings vary from run to run (theorems C09.order_dependent, same_line_order_dependent)", detail+"\n"+caseText)
 					res.Dist("hit.C09-K1")
